@@ -78,6 +78,21 @@ CHECKS["C18"] = {
     "note": COMMON_NOTE + "Modelled, not verified: POSIX fork/open/lseek/read semantics and unique pids while a handle recorded under them lives; mmap position is process memory. The tie runs real forks and real descriptors, with every access split into seek and read by wrappers installed inside the forked processes only.",
     "technique": "Lean 4 proof (single-user invariant of open file descriptions) + model/code correspondence on controlled real forks",
 }
+CHECKS["C05"] = {
+    "text": "Lean (interleaving model of FunctorMap and mul_p_map, every number of workers >= 1, every list of consecutive calls incl. empty ones, all schedules): what the caller has received is always a prefix 0..m-1 of the chunk indices in order; when the program is over every call has handed over exactly its chunks in input order (calls independent; mul_p_map through the final sort); no deadlock (some thread can move while the caller has not finished); every execution is bounded by an explicit measure (termination); at the end every worker has exited and both queues are empty.",
+    "note": COMMON_NOTE + "multiprocessing.Queue is modelled as an atomic FIFO (its asynchronous feeder can only make a non-blocking get miss an item on its way). The step from chunk indices to f(x) values is the proved data-level lemma yielded_ordered.",
+    "technique": "Lean 4 proof (inductive invariant, progress lemma, decreasing measure) + step-by-step correspondence under a controlled scheduler",
+}
+CHECKS["C01"] = {
+    "text": "Lean (interleaving model of FunctorPool / FactoryFunctorPool: consumer, feeding thread, replace thread, workers; one step per visible operation incl. the separate reads and writes of the two racy progress flags): an inductive safety invariant (every chunk sent so far is in exactly one of work queue, a worker's hands, result queue, drained batch, reorder buffer, emitted output; flag/counter relations per feeder pc; loop-exit facts) holds in every reachable state of every configuration under every interleaving; hence the emitted chunks of an ordered call are always 0..m-1 in order, of an unordered call duplicate-free and valid, and when the consumer leaves the loop every chunk was emitted exactly once (ordered: in input order) with no result chunk, work item or held chunk left. Data level: chunking flattens to the input; emission order 0..n-1 yields exactly map f data, a permutation yields the same multiset with in-chunk order kept.",
+    "note": COMMON_NOTE + "Modelled, not verified: atomicity of each manager-queue/event/lock operation, sequential consistency of the two progress flags (GIL), the replace queue as an atomic FIFO, fork = copy of the Process object, scheduling-point granularity. Out of reach: OS starvation, wall-clock timeouts, a killed manager, fork-in-thread hazards. D19 (exit blocks on its stop orders for an int work-queue bound below the worker count after unreplaced retirements) is a recorded known finding.",
+    "technique": "Lean 4 proof (inductive conservation invariant over the interleaving model) + step-by-step correspondence under a controlled scheduler",
+}
+CHECKS["C03"] = {
+    "text": "Lean (same model, the consumer runs an arbitrary list of calls on one pool, factory pools replace retired workers at any moment): when the caller's program is over, and for every call already over while it runs, call k emitted exactly its own chunks (ordered calls in input order) under every interleaving: nothing leaks between calls; between calls no result chunk, work item or held chunk is left; after the context has been left every worker ever created has exited. Termination of every call and worker availability across replacement are C02's liveness theorems; leaving the context in the D19 region is a recorded known finding.",
+    "note": COMMON_NOTE + "Modelled, not verified: atomicity of each manager-queue/event/lock operation, sequential consistency of the two progress flags (GIL), the replace queue as an atomic FIFO, fork = copy of the Process object, scheduling-point granularity. Out of reach: OS starvation, wall-clock timeouts, a killed manager, fork-in-thread hazards. D19 (exit blocks on its stop orders for an int work-queue bound below the worker count after unreplaced retirements) is a recorded known finding.",
+    "technique": "Lean 4 proof (safety + history invariant over the interleaving model) + step-by-step correspondence of multi-call histories under a controlled scheduler",
+}
 NOT_APPLICABLE = []
 NOTES = ("Checks are added as their models, theorems and correspondence harnesses are completed; properties not yet listed are "
          "work in progress (see DESIGN.md), not 'not applicable'.")
